@@ -172,6 +172,7 @@ func genHostileStream(r *core.Rand, valid []byte, usize int) []byte {
 
 func genC03(tier string, r *core.Rand) C03Plan {
 	base := genC05(tier, r)
+	base.Peer.Late = 0 // held mail is C05's arm
 	// small conforming base scenario so that deep states are reached quickly
 	if len(base.Lib.Msgs) > 4 {
 		base.Lib.Msgs = base.Lib.Msgs[:r.Range(0, 4)]
